@@ -285,4 +285,8 @@ def box(v):
         return V_OBJ(z3.IntVal(v.oid))
     if is_sym(v) and v.sort() == V:
         return v
+    if hasattr(v, "box"):
+        return v.box()
+    if hasattr(v, "vterm") and v.vterm is not None:
+        return v.vterm
     raise TypeError(f"cannot box {v!r}")
